@@ -1,4 +1,8 @@
 pub mod builtin;
+pub mod evolution;
+pub mod framing;
+pub mod sinks;
+pub mod varint;
 
 use crate::run::{Cx, Verdict};
 use crate::PropResult;
@@ -7,7 +11,13 @@ use serde_json::Value;
 pub fn run(cx: &Cx) -> PropResult {
     match cx.prop {
         "C01" => builtin::run_c01(cx),
+        "C03" => evolution::run_c03(cx),
         "C04" => builtin::run_c04(cx),
+        "C07" => framing::run_c07(cx),
+        "C08" => framing::run_c08(cx),
+        "C11" => varint::run(cx),
+        "C12" => framing::run_c12(cx),
+        "C15" => sinks::run(cx),
         other => {
             eprintln!("unknown property {other}");
             std::process::exit(2)
@@ -18,7 +28,13 @@ pub fn run(cx: &Cx) -> PropResult {
 pub fn replay(cx: &Cx, case: &Value) -> Verdict {
     match cx.prop {
         "C01" => builtin::replay_c01(case),
+        "C03" => evolution::replay_c03(case),
         "C04" => builtin::replay_c04(case),
+        "C07" => framing::replay_c07(case),
+        "C08" => framing::replay_c08(case),
+        "C11" => varint::replay(case),
+        "C12" => framing::replay_c12(case),
+        "C15" => sinks::replay(case),
         other => {
             eprintln!("unknown property {other}");
             std::process::exit(2)
